@@ -304,24 +304,26 @@ def worker(args):
                 return replay({'kind': 'from_buffer', 'len': c['len'], 'exp_itemsize': c['exp_itemsize'],
                                'fixed_len': c['fixed_len'] if arrkind == 'fixed' else None, 'itemsize': isz})
             too_small = z3.And(z3.BoolVal(arrkind == 'fixed'), Lb < nfix * isz)
+            # the region the replay script can build with array.array exporters
+            pf = z3.And(z3.ULE(Lb, 4096), z3.Or(E == 1, E == 2, E == 4, E == 8), z3.URem(Lb, E) == 0)
             if py.exc is None and is_c(r) and r != 0:
                 hutil.witness(chk, ex, label + ':ok')
-                hutil.discharge(chk, ex, label + ':accepted=>large-enough', z3.Not(too_small), inputs, replay=rp)
+                hutil.discharge(chk, ex, label + ':accepted=>large-enough', z3.Not(too_small), inputs, replay=rp, prefer=pf)
                 length = bv(ex.mem.load(r + 40, 8), 64)
-                hutil.discharge(chk, ex, label + ':aliases-exporter-memory', bv(ex.mem.load(r + 24, 8), 64) == B, inputs, replay=rp)
+                hutil.discharge(chk, ex, label + ':aliases-exporter-memory', bv(ex.mem.load(r + 24, 8), 64) == B, inputs, replay=rp, prefer=pf)
                 if arrkind == 'open':
                     # len(obj) // sizeof(T): q*isz <= len < (q+1)*isz
                     q = z3.ZeroExt(64, length)
                     l128 = z3.ZeroExt(64, Lb)
                     hutil.discharge(chk, ex, label + ':length==len//sizeof(T)',
-                                    z3.And(q * isz <= l128, l128 < (q + 1) * isz), inputs, replay=rp)
+                                    z3.And(q * isz <= l128, l128 < (q + 1) * isz), inputs, replay=rp, prefer=pf)
                 elif arrkind == 'fixed':
-                    hutil.discharge(chk, ex, label + ':length==declared', length == nfix, inputs, replay=rp)
+                    hutil.discharge(chk, ex, label + ':length==declared', length == nfix, inputs, replay=rp, prefer=pf)
                 hutil.discharge(chk, ex, label + ':exporter-stays-locked', py.info(x).get('exports', 0) == 1, inputs)
             else:
                 hutil.witness(chk, ex, label + ':rejected')
                 hutil.discharge(chk, ex, label + ':rejected=>too-small+ValueError',
-                                z3.And(too_small, z3.BoolVal(py.exc == 'PyExc_ValueError')), inputs, replay=rp)
+                                z3.And(too_small, z3.BoolVal(py.exc == 'PyExc_ValueError')), inputs, replay=rp, prefer=pf)
                 hutil.discharge(chk, ex, label + ':rejected=>exporter-released', py.info(x).get('exports', 0) == 0, inputs)
     elif what[0] == 'memmove':
         NB = what[1]
